@@ -1,7 +1,7 @@
 CONSTANTS
-  NK = 8
+  NK = 12
   NV = 1
-  MaxLen = 12
+  MaxLen = 18
   Reads <- ReadsNone
   Lims <- Lims0
   Grow = 0
